@@ -340,14 +340,20 @@ pub fn run_fault_case(prog: &Arc<Program>, hist: &[Op], inject: i64, stats: &mut
 /// Attribute a C22 violation to a known cause, if there is one: the message of salsa's own
 /// assertions about a tracked struct left write-locked by an earlier unwind, or (by re-running the
 /// case with full logging and the cycle-defect detectors of `mon.rs`) one of the cycle defects.
-fn classify_fault(prog: &Arc<Program>, hist: &[Op], inject: i64, oracle: &str, msg: &str) -> String {
-    use ql::val::inj;
+fn classify_fault(prog: &Arc<Program>, hist: &[Op], inject: i64, oracle: &str, msg: &str, kind: Option<ql::val::P>) -> String {
+    use ql::val::{inj, P};
     if msg.contains("two concurrent writers to")
         || msg.contains("cannot delete write-locked id")
         || msg.contains("cannot delete read-locked id")
         || msg.contains("failed to acquire write lock")
     {
-        return "tracked-struct-lock-state-after-unwind".into();
+        // the known finding is about panics in callbacks that run while salsa holds a struct's
+        // update lock (field / identity comparison, hashing, the event callback); the same
+        // symptom after a panic anywhere else is something else
+        return match kind {
+            Some(P::EqV) | Some(P::EqD) | Some(P::HashD) | Some(P::Event) => "tracked-struct-lock-state-after-unwind".into(),
+            other => format!("struct-lock-state-after-unwind-at-{other:?}"),
+        };
     }
     if prog.name.contains("colliding") {
         // an identity change under a colliding hash updates the slot in place (new generation)
@@ -450,7 +456,7 @@ pub fn run_fault_worker(spec: &Spec, w: usize, nw: usize) -> WorkerOut {
                             out.stats.samples.push(json!({"program": prog.name, "history": format!("{hist:?}"), "callback_points": total, "injected_at": i, "kind": format!("{kind:?}")}));
                         }
                         if let Some((oracle, msg, step)) = v {
-                            let class = classify_fault(&prog, &hist, i, &oracle, &msg);
+                            let class = classify_fault(&prog, &hist, i, &oracle, &msg, kind);
                             let sig = format!("{}:{}:{}", spec.id, class, prog.name);
                             if viol_sigs.insert(sig.clone()) {
                                 out.viols.push(Viol {
